@@ -80,6 +80,11 @@ struct Thr {
 	char     name[32];
 	uint64_t nblocks;
 	void    *wsite[6]; // return addresses of the call that blocked on a mutex / condvar
+	struct {
+		unsigned id;
+		void    *site[4];
+	} hsite[4]; // call sites of the most recent mutex acquisitions (ring)
+	unsigned nhsite;
 	int      role; // for switch signature: 0 main,1 harness,2 task,3 expire,4 poll,5 resolv,6 reap,7 other
 };
 
